@@ -218,7 +218,8 @@ class ExprMixin:
     # ------------------------------------------------------------------ leaves
     def e_Constant(self, e, st, fr):
         if isinstance(e.value, float):
-            raise OutOfSubset("float literal")
+            fr_ = fractions.Fraction(e.value)
+            return self.val(st, Val(FLOAT, z3.RealVal(f"{fr_.numerator}/{fr_.denominator}"), aux="float-literal"))
         if e.value is Ellipsis:
             raise OutOfSubset("ellipsis")
         return self.val(st, self.py_to_val(e.value))
@@ -301,6 +302,10 @@ class ExprMixin:
                 st.assume(z3.And(d * US_PER_DAY <= o.t, o.t < (d + 1) * US_PER_DAY))
                 return self.val(st, Val(INT, d))
             return self.val(st, Val(Ty("bound", "timedelta." + attr), None, aux=o))
+        if k == "dec" and "rp2.rp2_decimal.RP2Decimal" in self.tree.classes:
+            mi = self.tree.find_method("rp2.rp2_decimal.RP2Decimal", attr)
+            if mi is not None:
+                return self.val(st, Val(Ty("bound", mi.qualname), None, aux=o))
         if k in ("list", "dict", "set", "str", "dec", "pdec", "cset", "cdict", "clist", "iter", "float", "int"):
             return self.val(st, Val(Ty("bound", f"{k}.{attr}"), None, aux=o))
         if k == "extfn":
@@ -506,8 +511,15 @@ class ExprMixin:
         return go(0, st)
 
     def feasible_with(self, st: State, c) -> bool:
-        s2 = State(st.env, st.heap, st.pc + [c])
-        return self.feasible(s2)
+        if z3.is_false(c) or any(z3.is_false(p) for p in st.pc):
+            return False
+        self._sync(st.pc)
+        self._feas.push()
+        try:
+            self._feas.add(c)
+            return self._feas.check() != z3.unsat
+        finally:
+            self._feas.pop()
 
     @staticmethod
     def same_heap(a: State, b: State) -> bool:
